@@ -286,7 +286,11 @@ use vmodel::typelists::unsafe_path_types;
 fn unsafe_case_strategy() -> BoxedStrategy<UnsafeCase> {
     let cfg = ValCfg { max_len: 6, long: false, ..ValCfg::default() };
     prop::sample::select(unsafe_path_types())
-        .prop_flat_map(move |ty| (val_strategy(&ty, cfg), Just(ty), prop_oneof![1 => Just(vec![]), 5 => tops_strategy()]))
+        .prop_flat_map(move |ty| {
+            // strings from the six-string alphabet where the string table is involved (repeats), and longer lists
+            let cfg = if vmodel::refcodec::has_dedup_sources(&ty) { ValCfg { small_alphabet: true, max_len: 12, long: false, ..ValCfg::default() } } else { cfg };
+            (val_strategy(&ty, cfg), Just(ty), prop_oneof![1 => Just(vec![]), 5 => tops_strategy()])
+        })
         .prop_map(|(val, ty, ops)| UnsafeCase { ty, val, ops })
         .boxed()
 }
